@@ -179,7 +179,7 @@ func (s *Sim) GenTx() []byte {
 		period := ap.MinVotingPeriodBlocks() + int64(r.Intn(int(ap.MaxVotingPeriodBlocks()-ap.MinVotingPeriodBlocks())+1))
 		applying := start + period + ap.LazyApplyingBlocks() + int64(r.Range(0, 2))
 		if r.Chance(12) {
-			switch r.Intn(4) {
+			switch r.Intn(7) {
 			case 0:
 				start = h
 			case 1:
@@ -188,6 +188,15 @@ func (s *Sim) GenTx() []byte {
 				applying = start + period + ap.LazyApplyingBlocks() - 1
 			case 3:
 				period = ap.MinVotingPeriodBlocks() - 1
+			case 4: // int64 boundary: start + period overflows (issue #51 check)
+				start = (1<<63 - 1) - period + int64(r.Range(1, 3))
+				applying = 1<<63 - 1
+			case 5: // int64 boundary: start + period fits, adding lazyApplyingBlocks overflows
+				start = (1<<63 - 1) - period - int64(r.Intn(int(ap.LazyApplyingBlocks())+1))
+				applying = 1<<63 - 1
+			case 6: // everything just fits
+				start = (1<<63 - 1) - period - ap.LazyApplyingBlocks() - int64(r.Range(0, 2))
+				applying = 1<<63 - 1
 			}
 		}
 		var opts [][]byte
